@@ -165,7 +165,10 @@ def roundF (x : Float) : Float := if (x - x.floor).abs < (x - x.ceil).abs then x
 
 /-- what comes back from the text printed for `x` at precision 17 -/
 def quantFull (x : Float) : Float :=
-  if x < 2147483647.0 && x > -2147483647.0 && isintF x then roundF x else x
+  if x < 2147483647.0 && x > -2147483647.0 && isintF x then
+    -- printed as the int `Round(x)`: "-0" cannot occur
+    (let r := roundF x; if r == 0.0 then 0.0 else r)
+  else x
 
 def doubleScalar : Scalar Float :=
   { same := fun a b => !((a - b).abs > 2.220446049250313e-16)
